@@ -31,7 +31,7 @@ def bts(b):
 
 def item_dump(d):
     if isinstance(d, FB.TemperatureServiceData):
-        return [1] + bts(d._data)
+        return [1] + bts(d._data) + [int(round(d.data * 100)) if len(d._data) >= 3 else 0]
     if isinstance(d, FB.BatteryServiceData):
         return [2] + bts(d._data)
     if isinstance(d, FB.UrlServiceData):
@@ -135,6 +135,11 @@ class BleRun:
                 self.enc += [10] + bts(op[1])
                 self.world.inject(0, 0, op[1])
                 res = [0, int(bool(o.available()))]
+            elif name == "temp_encode":     # TemperatureServiceData().data = float -> bytes; the model gets round(value * 100)
+                self.enc += [12, int(round(op[1] * 100))]
+                sv = FB.TemperatureServiceData()
+                sv.data = op[1]
+                res = [0] + bts(sv._data)
             elif name == "read":
                 self.enc += [11]
                 e = o.read()
